@@ -31,6 +31,9 @@ EngineDevNames == {"LimitPerFile", "LimitAfterEmit", "LimitSkipsNullRows", "Limi
 KV(k, v)  == [kind |-> "kv", k |-> k, v |-> v]
 \* a byte order mark (U+FEFF) in front of the text of a row: part of the line like any other character, wherever in the file the line stands
 BomPre    == [kind |-> "longpre", n |-> 1, c |-> 65279]
+\* the text of a row followed by further characters (blanks, a tab, a carriage return in the middle of the file's line ...): part of the line for every reader,
+\* a row for an unanchored pattern, noise for table variant "anch"
+KVPost(k, v, post) == [kind |-> "kvpost", k |-> k, v |-> v, post |-> post]
 Garbage   == [kind |-> "garbage"]
 Empty     == [kind |-> "empty"]
 Near      == [kind |-> "near"]
@@ -43,6 +46,7 @@ Asc(s) == s      \* texts are sequences of code points already
 VText(v) == IF v.t = "real" THEN TextOf(v) ELSE IntTextB(v)
 LineText(l) ==
   CASE l.kind = "kv" -> <<107, 61>> \o (IF IsNull(l.k) THEN <<>> ELSE l.k.s) \o <<32, 118, 61>> \o (IF IsNull(l.v) THEN <<>> ELSE VText(l.v))
+    [] l.kind = "kvpost" -> <<107, 61>> \o (IF IsNull(l.k) THEN <<>> ELSE l.k.s) \o <<32, 118, 61>> \o (IF IsNull(l.v) THEN <<>> ELSE VText(l.v)) \o l.post
     [] l.kind = "garbage" -> <<35, 35, 35>>
     [] l.kind = "empty" -> <<>>
     [] l.kind = "near" -> <<107, 61, 97, 32, 118, 49>>            \* "k=a v1": one character short of a match
@@ -55,8 +59,8 @@ LineText(l) ==
 \*   "udef": the JOINED table's column w has DEFAULT 7 (rows of the joined file get it; the NULL row of an OUTER JOIN does not);
 \*   "anch": the pattern is anchored at both ends of the line (^...$);  "vreal": v is a REAL column (lines carry REAL values)
 RowOf(tdef, l) ==
-  LET k == IF l.kind = "kv" THEN l.k ELSE IF l.kind = "longpre" /\ tdef # "anch" THEN TextV(<<97>>) ELSE Null
-      v0 == IF l.kind = "kv" THEN l.v ELSE IF l.kind = "longpre" /\ tdef # "anch" THEN IntV(1) ELSE Null
+  LET k == IF l.kind = "kv" \/ (l.kind = "kvpost" /\ tdef # "anch") THEN l.k ELSE IF l.kind = "longpre" /\ tdef # "anch" THEN TextV(<<97>>) ELSE Null
+      v0 == IF l.kind = "kv" \/ (l.kind = "kvpost" /\ tdef # "anch") THEN l.v ELSE IF l.kind = "longpre" /\ tdef # "anch" THEN IntV(1) ELSE Null
       v == IF tdef \in {"vdef", "nndef"} /\ IsNull(v0) /\ l.kind # "bigv" THEN IntV(7) ELSE v0        \* DEFAULT: only when the group took no part
       admitted == (~IsNull(k) \/ ~IsNull(v)) /\ (tdef \in {"knn", "bothnn", "nndef"} => ~IsNull(k)) /\ (tdef = "bothnn" => ~IsNull(v))
   IN <<admitted, k, v>>
